@@ -32,7 +32,7 @@
 # external _imports
 from typing import Any, Callable, Union, Iterable, Optional
 from networkx import MultiDiGraph
-from sympy import Symbol, Expr, Function, lambdify
+from sympy import Symbol, Expr, Function, Dummy, lambdify
 import numpy as np
 
 # meta infos
@@ -211,7 +211,11 @@ class ComputeOp(ComputeNode):
 
     def get_func(self) -> Callable:
         if self.func is None:
-            self.func = lambdify(self.func_args, expr=self.expr, modules=[self.backend_funcs, "numpy"])
+            # the arguments are renamed, since an argument may carry the name of a function that the expression
+            # calls (the result of the inner call of `sin(sin(x))` is a compute graph node with the label `sin`)
+            args = [Dummy() for _ in self.func_args]
+            expr = self.expr.xreplace(dict(zip(self.func_args, args)))
+            self.func = lambdify(args, expr=expr, modules=[self.backend_funcs, "numpy"])
         return self.func
 
     @property
